@@ -31,7 +31,7 @@ def snake(type_name):
     return case_words(type_name, '_')
 
 def variant_kebab(v):
-    return case_words(v, '-')
+    return case_words(v[2:] if v.startswith('r#') else v, '-')
 
 class F:
     def __init__(self, name, ty, naming=(), cons=None, post=(), doc=None):
@@ -355,6 +355,11 @@ def base_family():
         dict(name='Extra', shape='unit', naming=[('short', 'x'), ('long', 'extra-checks')]),
         dict(name='Other', shape='unit', naming=[('long', 'renamed'), ('short', None)]),
         dict(name='Plain', shape='unit')]))
+    # raw-identifier unit variants: the implicit short / long names are taken from the name WITHOUT the r# prefix (first letter of the kebab form)
+    M.append(Member('b_raw_unit_names', 'enum', 'Kw', variants=[
+        dict(name='r#Type', shape='unit', naming=[('short', None)]),
+        dict(name='r#Loop', shape='unit', naming=[('short', None), ('long', None)], doc='loop it'),
+        dict(name='r#Match', shape='unit')]))
     M.append(Member('b_non_ascii', 'struct', 'Intl', top=['options'], fields=[
         F('\u00f1', 'bool', doc='single non-ASCII character: a short name'), F('\u0436', 'Option<u32>'),
         F('gr\u00f6\u00dfe', 'u32', doc='several characters: a long name'), F('\u00e9t\u00e9', 'bool', naming=[('short', None), ('long', None)])]))
